@@ -11,7 +11,7 @@ def spec(tier, seed):
     for (name, L, chunk, unwind) in hs:
         gen += g.harness_src(name, L, chunk, unwind)
         nseq += len(chunk)
-        jobs.append(Job("h263", name, 900, params={"source_bytes": L, "sequences": [g.describe(p, ops) for p, ops in chunk]}, group="sequences"))
+        jobs.append(Job("h263", name, 900 if tier == "quick" else 5400, params={"source_bytes": L, "sequences": [g.describe(p, ops) for p, ops in chunk]}, group="sequences"))
     if tier == "thorough":
         jobs.append(Job("h263", "c14_twin_must_fail", 600, expect="fail", group="twin"))
     return {
